@@ -111,10 +111,23 @@ func run(r *core.Run) {
 			rn.finish()
 		}
 	}()
-	// phase 0: values with <= 3 nodes and the grid, phase 1 (thorough): 4 node values,
-	// phase 2: the element order family
-	for phase := 0; phase < 3; phase++ {
-		for _, sp := range specs() {
+	// phase 0: values with <= 3 nodes and the grid, phase 2: the element order family of
+	// the same format right after it (cheap, and reached even when the deadline cuts the
+	// run short); then phase 1 (thorough): 4 node values
+	type section struct {
+		phase int
+		sp    *spec
+	}
+	var sections []section
+	for _, sp := range specs() {
+		sections = append(sections, section{0, sp}, section{2, sp})
+	}
+	for _, sp := range specs() {
+		sections = append(sections, section{1, sp})
+	}
+	{
+		for _, sec := range sections {
+			phase, sp := sec.phase, sec.sp
 			var cases []valCase
 			for _, vc := range sp.cases(r.Thorough()) {
 				switch {
